@@ -93,3 +93,129 @@ def gen_c10(tier):
         _enc_module("g_c10_v3", "C10: encoder output = spec wire image (v3)", SH.v3_shapes(tier), "C10", want_len=False).write(srcdir)
         _enc_module("g_c10_v5", "C10: encoder output = spec wire image (v5)", SH.v5_shapes(tier), "C10", want_len=False).write(srcdir)
     return g
+
+
+# ---------------------------------------------------------------------------------------------
+# selections shared by several properties
+# ---------------------------------------------------------------------------------------------
+
+def one_per_type(shapes_list, pred=lambda sh: True):
+    seen = set()
+    out = []
+    for sh in shapes_list:
+        k = (sh.fam, sh.typ)
+        if k not in seen and pred(sh):
+            seen.add(k)
+            out.append(sh)
+    return out
+
+
+def bad_class_scenarios(m, shapes_list, prop, limit_per_shape=8):
+    """for every validator-decided region of every shape: the query in which exactly that call is in
+    its invalid class (all others valid)"""
+    for sh in shapes_list:
+        if sh.malformed_by_shape:
+            continue
+        n = 0
+        for kind, regs in (("utf8", sh.b.utf8), ("name", sh.b.names), ("filter", sh.b.filters)):
+            for i, _ in enumerate(regs):
+                if n >= limit_per_shape:
+                    break
+                # tool limitation (DESIGN section 7): when a v5 PUBLISH fails after its property list was
+                # built, CBMC's heap model reports a spurious dealloc-size mismatch (not reproducible natively)
+                if sh.fam == "v5" and sh.typ == "Publish" and not (kind == "utf8" and i == 0):
+                    continue
+                fn, code, w, unwind, meta = G.emit_dec(sh, prop=prop, bad=(kind, i))
+                m.add(fn, code, w, unwind, meta=meta)
+                n += 1
+
+
+def string_shapes(tier):
+    """shapes that carry validated text, one per distinct field role (for C12 / C20 class queries)"""
+    S = [G.v3_connect("V311", 0xC6), G.v3_publish(1, 2, 1), G.v3_subscribe((2, 1)), G.v3_unsubscribe((1, 2)),
+         G.v5_connect(0xC6, 1, [(0x15, 1)], 1, 1, [(0x03, 1), (0x08, 1)]), G.v5_connack([(0x12, 1)]), G.v5_connack([(0x1A, 1)]),
+         G.v5_connack([(0x1C, 1)]), G.v5_connack([(0x1F, 2)]), G.v5_connack([(0x15, 1)]), G.v5_connack([(0x26, (1, 1))]),
+         G.v5_publish(1, 2, 1), G.v5_publish(0, 1, 1, [(0x03, 1)]), G.v5_publish(0, 1, 1, [(0x08, 2)]), G.v5_publish(0, 1, 2, [(0x01, 1)]),
+         G.v5_ack("Puback", "long", [(0x1F, 1)], None), G.v5_ack("Pubrec", "long", [(0x26, (1, 1))], None), G.v5_ack("Pubrel", "long", [(0x1F, 2)], None),
+         G.v5_ack("Pubcomp", "long", [(0x1F, 1)], None), G.v5_subscribe((2,)), G.v5_unsubscribe((1, 1)),
+         G.v5_disconnect("long", [(0x1F, 1)]), G.v5_disconnect("long", [(0x1C, 1)]), G.v5_auth("long", [(0x15, 1)]), G.v5_auth("long", [(0x1F, 1)])]
+    if tier == "thorough":
+        S += [G.v3_connect("V310", 0xC6, 2, 2, 1, 2, 1), G.v3_publish(2, 4, 0), G.v3_subscribe((3, 2, 1)),
+              G.v5_connect(0x86, 2, [(0x15, 2)], 2, 1, [(0x03, 2)]), G.v5_publish(2, 4, 4, [(0x01, 1)]),
+              G.v5_connack([(0x12, 4)]), G.v5_connack([(0x26, (2, 2))]), G.v5_auth("long", [(0x15, 4)])]
+    return S
+
+
+def gen_c12(tier):
+    def g(srcdir):
+        m = G.Module("g_c12", "C12: every decoded packet satisfies the invariants of its types (invalid-class queries per text field + accepted-packet obligations)")
+        ss = string_shapes(tier)
+        bad_class_scenarios(m, ss, "C12")
+        # the all-valid queries of the same shapes carry the accepted-packet obligations
+        for sh in ss:
+            fn, code, w, unwind, meta = G.emit_dec(sh, prop="C12")
+            m.add(fn, code, w, unwind, meta=meta)
+        # identifiers / variable byte integers
+        for sh in [G.v3_pidonly("Puback"), G.v3_suback(1), G.v5_ack("Pubrel", "short"), G.v5_codes("Unsuback", 1),
+                   G.v5_subscribe((1,), [(0x0B, 268435455)]), G.v5_publish(0, 1, 1, [(0x0B, 16384)])]:
+            fn, code, w, unwind, meta = G.emit_dec(sh, prop="C12")
+            m.add(fn, code, w, unwind, meta=meta)
+        m.write(srcdir)
+    return g
+
+
+def gen_c20(tier):
+    def g(srcdir):
+        m = G.Module("g_c20", "C20: each catalogue malformation yields its documented error (single-violation obligations)")
+        v3 = SH.v3_shapes("quick")
+        v5 = SH.v5_shapes("quick")
+        # scalar malformations: one shape per packet type (pid 0, qos 3, codes, flags, options, boolean properties)
+        chosen = one_per_type(v3, lambda sh: not sh.malformed_by_shape and len(sh.b.cons) > 0) + \
+            one_per_type(v5, lambda sh: not sh.malformed_by_shape and len(sh.b.cons) > 0)
+        names = {sh.name for sh in chosen}
+        # shape-level malformations (connect flags, empty subscription lists, unknown/disallowed/duplicated
+        # properties, wrong property length, body on a body-less packet)
+        chosen += [sh for sh in v3 + v5 if sh.malformed_by_shape]
+        # byte-valued properties and maximum QoS
+        chosen += [sh for sh in v5 if sh.name in ("connack_x24", "connack_x25", "connack_x28", "connect_f02_c1_x17", "connect_f02_c1_x19",
+                                                  "publish_q0_t1_p0_x01", "subscribe_2_1", "suback_2", "unsuback_2", "disconnect_code", "auth_long")]
+        seen = set()
+        for sh in chosen:
+            if (sh.fam, sh.name) in seen:
+                continue
+            seen.add((sh.fam, sh.name))
+            fn, code, w, unwind, meta = G.emit_dec(sh, prop="C20")
+            m.add(fn, code, w, unwind, meta=meta)
+        bad_class_scenarios(m, string_shapes(tier) if tier == "thorough" else string_shapes(tier)[:12], "C20", 3)
+        m.write(srcdir)
+    return g
+
+
+def gen_c01(tier):
+    def g(srcdir):
+        v3 = encodable(SH.v3_shapes("quick"))
+        v5 = encodable(SH.v5_shapes("quick"))
+        if tier == "quick":
+            # every packet type, every property once, the reason-code / flag layouts
+            pick = v3[::2] + v5[::3] + one_per_type(v3) + one_per_type(v5)
+        else:
+            pick = v3 + v5
+        m = G.Module("g_c01", "C01: encode then decode is the identity, per canonical shape: (i) encoder bytes = spec wire image, (ii) decoder on that wire image = the fields")
+        seen = set()
+        for sh in pick:
+            if (sh.fam, sh.name) in seen:
+                continue
+            seen.add((sh.fam, sh.name))
+            fn, code, w, unwind, meta = G.emit_enc(sh, prop="C01", level="body")
+            m.add(fn, code, w, unwind, stubs=G.STUBS_ENCODE, meta=meta)
+            fn, code, w, unwind, meta = G.emit_dec(sh, prop="C01")
+            m.add(fn, code, w, unwind, meta=meta)
+        m.write(srcdir)
+    return g
+
+
+def gen_c02(tier):
+    def g(srcdir):
+        _enc_module("g_c02_v3", "C02: declared lengths = bytes written (v3)", SH.v3_shapes(tier), "C02", want_bytes=False).write(srcdir)
+        _enc_module("g_c02_v5", "C02: declared lengths = bytes written (v5)", SH.v5_shapes(tier), "C02", want_bytes=False).write(srcdir)
+    return g
